@@ -313,7 +313,13 @@ def shape_spec(rng, p, frame, shape, meta, vis):
     if meta is None and rng.random() < 0.5:
         meta = {} if rng.random() < 0.5 else None
     kw = {}
-    ang = lambda: gen.angle_spec(rng)
+    def ang():
+        if rng.random() < 0.04:
+            # just below 1e-4 deg: printed in exponent notation, may round up to 1.0e-04 (where the notation switches)
+            v = rng.choice([-1, 1]) * 1e-4 * (1 - 10.0 ** rng.uniform(-6, -1.3))
+            unit = rng.choice(['deg', 'hourangle', 'arcmin'])
+            return S.q(v * {'deg': 1.0, 'hourangle': 1 / 15.0, 'arcmin': 60.0}[unit], unit)
+        return gen.angle_spec(rng)
     if shape == 'circle':
         kw = dict(center=coord_spec(rng, p, frame), radius=size_spec(rng, size_v(rng, p, frame), frame))
     elif shape == 'ellipse':
